@@ -264,6 +264,7 @@ func (i *interpreter) runPath(fn *ssa.Function, prefix []decision) (res *PathRes
 							panic(r2)
 						}
 					}()
+					i.flushAsserts()
 					i.doAssert(false, "no-panic", true, msg)
 					res.End, res.Msg = "panic-known", msg
 				}()
@@ -285,16 +286,20 @@ func (i *interpreter) runPath(fn *ssa.Function, prefix []decision) (res *PathRes
 				res.Tape, res.Observed = i.witness()
 			}()
 		}
-		i.solver.PopTo(0)
+		if i.path.asserted == 0 && len(i.path.pc) > 0 {
+			// the solver was never consulted on this path; its stack still belongs to an earlier path
+		}
 	}()
 	i.initMain()
 	call(i, nil, token.NoPos, fn, nil)
+	i.flushAsserts()
 	return
 }
 
+// sampleNow: the first few completed paths of each worker, then every 64th.
 func (i *interpreter) sampleNow() bool {
 	i.sampleCtr++
-	return (i.sampleCtr-1)%i.cfg.SampleEvery == 0
+	return i.sampleCtr <= 4 || i.sampleCtr%64 == 0
 }
 
 // RunHarness explores all paths of the named harness function.
@@ -392,6 +397,7 @@ func (p *Program) RunHarness(name string, cfg HarnessConfig, kind SolverKind, ve
 			rep.SolverUnsat += i.solver.Stats.Unsat
 			rep.SolverUnknown += i.solver.Stats.Unknown
 			rep.SolverTime += i.solver.Stats.Time
+			rep.ModelTime += i.solver.Stats.ModelTime
 			for _, m := range i.inconclusive {
 				rep.Inconclusive = appendUnique(rep.Inconclusive, m)
 			}
